@@ -4,12 +4,14 @@
    Theorems: the tokens of the rendering of a policy parse to that policy - same effect, annotations, scopes, conditions - with literal
    values of set / record / extension type replaced by the constructor expressions their rendering spells out ([norm], the normal form
    of the text syntax); a whole document of policies parses to the list of policies in order.
-   Proofs: Proofs/ParserRoundTrip.v.  (That [norm] preserves evaluation is decided by the direct oracle of the check; the printed
-   text lexes to these tokens by the `printpol` + `tokens` correspondences and C18.) *)
+   Proofs: Proofs/ParserRoundTrip.v (tokens -> tree), Proofs/LexRender.v (rendered bytes -> tokens), Proofs/TextPipeline.v (composition with
+   the C18 scanner).  Byte level: C08_text_roundtrip (render, tokenize with the specification tokenizer, parse) and C08_streamed_text_roundtrip
+   (the same through the buffered scanner over EVERY chunking of a non-failing reader).  (That [norm] preserves evaluation is decided by the
+   direct oracle of the check.) *)
 From Coq Require Import ZArith List Bool.
 Import ListNotations.
-From Cedar Require Import Lang.Value Impl.Like Lang.Expr Impl.Scanner Impl.Tokenizer Impl.Quote Impl.Parser Impl.Printer Lang.RoundTrip
-  Proofs.ParserRoundTrip.
+From Cedar Require Import Lang.Value Impl.Like Lang.Expr Impl.Scanner Impl.Tokenizer Lang.Cursor Impl.Quote Impl.Parser Impl.Printer Lang.RoundTrip
+  Proofs.ScannerProofs Proofs.ParserRoundTrip Proofs.LexRender Proofs.TextPipeline.
 Local Open Scope Z_scope.
 
 Section C08.
@@ -37,8 +39,30 @@ Section C08.
     exists f0, forall f, (f0 <= f)%nat ->
       p_policies f (doc_toks is_printable is_gext set_order print_ip no_extra ps) [] = POk (map (doc_result set_order print_ip) ps) [eof_token].
   Proof. exact (parse_print_policies is_printable is_gext set_order print_ip no_extra print_ip_plain). Qed.
+
+  (* BYTES: the rendering of a list of policies (joined by any white space, none included), tokenized and parsed, gives back the policies *)
+  Theorem C08_text_roundtrip : forall sep ps, all_ws sep ->
+    Forall (fun ap => policy_ok set_order (fst ap) (snd ap) = true) ps ->
+    exists f0, forall f, (f0 <= f)%nat -> exists ts,
+      spec_tokenize f (render (doc_items is_printable is_gext set_order print_ip no_extra sep ps)) = Some (Some ts) /\
+      exists res last, p_policies f ts [] = POk res [last] /\ t_type last = TEOF /\
+        map (fun pp => (pp_annots pp, pp_policy pp)) res = map (fun ap => (fst ap, norm_policy set_order print_ip (snd ap))) ps.
+  Proof. exact (text_roundtrip_document_gen is_printable is_gext set_order print_ip no_extra print_ip_plain). Qed.
+
+  (* ... and so does reading the same bytes through the buffered scanner, whatever the chunking of the (non-failing) reader and the
+     buffer size: print -> stream -> tokenize -> parse is the identity up to the text normal form *)
+  Theorem C08_streamed_text_roundtrip : forall sep ps, all_ws sep ->
+    Forall (fun ap => policy_ok set_order (fst ap) (snd ap) = true) ps ->
+    exists f0, forall f b r, (f0 <= f)%nat -> (4 <= b)%nat -> no_fail r -> (List.length (r_sched r) + 2 <= f)%nat ->
+      r_rest r = render (doc_items is_printable is_gext set_order print_ip no_extra sep ps) ->
+      exists ts, tokenize f b r = Some (Some ts) /\
+        exists res last, p_policies f ts [] = POk res [last] /\ t_type last = TEOF /\
+          map (fun pp => (pp_annots pp, pp_policy pp)) res = map (fun ap => (fst ap, norm_policy set_order print_ip (snd ap))) ps.
+  Proof. exact (streamed_text_roundtrip is_printable is_gext set_order print_ip no_extra print_ip_plain). Qed.
 End C08.
 
 Print Assumptions C08_policy_roundtrip.
 Print Assumptions C08_expr_roundtrip.
 Print Assumptions C08_document_roundtrip.
+Print Assumptions C08_text_roundtrip.
+Print Assumptions C08_streamed_text_roundtrip.
